@@ -635,7 +635,8 @@ class StorageBackend:
             )
 
         subruns = chunk_info.get("subruns", None)
-        if chunk_info["run_id"].startswith("_") and subruns is None:
+        if chunk_info["run_id"].startswith("_") and subruns is None and chunk_info["n"]:
+            # (An empty, zero-duration chunk legitimately has no subrun spans left)
             raise ValueError(f"Superrun {chunk_info} has no subruns information!")
 
         chunk = strax.Chunk(
